@@ -130,6 +130,17 @@ pub fn append_stream(ctx: &mut Ctx) {
 		// zero-sized in memory, one byte on the wire
 		history::<crate::derived::Marker>(ctx, "Marker", &mut rng, deque, start, &batches);
 	}
+	// one batch that takes the count across one or two prefix widths at once (1 -> 4 bytes, 2 -> 4 bytes)
+	for (i, &start) in [0usize, 1, 10, 63, 64, 100, 16383].iter().enumerate() {
+		for &add in &[16384usize.saturating_sub(start), 16400, 70000] {
+			if add == 0 {
+				continue;
+			}
+			history::<u8>(ctx, "u8", &mut rng, i % 2 == 1, start, &[add]);
+			history::<crate::derived::Marker>(ctx, "Marker", &mut rng, i % 2 == 0, start, &[add, 1]);
+			history::<u32>(ctx, "u32", &mut rng, false, start, &[3, add]);
+		}
+	}
 	// alias item forms: &str items into a Vec<String>, &&T, Box<T>
 	for _ in 0..rounds {
 		let mut g = G::new(rng.next(), 6);
